@@ -1254,10 +1254,13 @@ async fn load_delegations(
                 path: path.clone(),
                 url: metadata_base_url.clone(),
             })?;
-        let specifier = "max_targets_size parameter";
+        let (role_size_limit, specifier) = match role_meta.length {
+            Some(length) => (length, "snapshot.json"),
+            None => (max_targets_size, "max_targets_size parameter"),
+        };
         // load the role json file
         let stream =
-            fetch_max_size(transport, role_url.clone(), max_targets_size, specifier).await?;
+            fetch_max_size(transport, role_url.clone(), role_size_limit, specifier).await?;
         let data = stream
             .into_vec()
             .await
